@@ -10,21 +10,40 @@ import numpy as np
 from common import *
 
 IMPORTS = "From QE Require Import Base.Pivot C04.Model Gen.Consts."
-PREAMBLE = ("Definition opts : @PivOptions Q := {| fea_tol := lp_FEA_TOL; tol_piv := lp_TOL_PIV; "
-            "tol_ratio_diff := lp_TOL_RATIO_DIFF |}.\n"
-            "Definition opts0 : @PivOptions Q := {| fea_tol := 0%Q; tol_piv := 0%Q; tol_ratio_diff := 0%Q |}.\n"
-            "Definition lp_ok (o : @PivOptions Q) (c : list Q * nat * nat * list (list Q) * list Q * list (list Q) * list Q * nat * "
-            "(list Q * list Q * Q * bool * nat * nat)) : bool :=\n"
-            "  let '(cv, m, k, Aub, bub, Aeq, beq, mi, (x, lam, fn, su, st, ni)) := c in\n"
-            "  let '(x', lam', fn', su', st', ni') := linprog_simplex cv m k Aub bub Aeq beq mi o in\n"
-            "  Bool.eqb su su' && Nat.eqb st st' && Nat.eqb ni ni' &&\n"
-            "  (if orb su (negb (Nat.eqb st 2)) then Qs_close (1 # 1000000000) x' x && Qs_close (1 # 1000000000) lam' lam "
-            "&& Qclose (1 # 1000000000) fn' fn else true).\n"
-            "Definition mm_ok (o : @PivOptions Q) (c : nat * nat * list (list Q) * nat * (Q * list Q * list Q)) : bool :=\n"
-            "  let '(m, n, A, mi, (v, x, y)) := c in let '(v', x', y') := minmax m n A mi o in\n"
-            "  Qclose (1 # 1000000000) v' v && Qs_close (1 # 1000000000) x' x && Qs_close (1 # 1000000000) y' y.\n")
-LP_TYPE = "list Q * nat * nat * list (list Q) * list Q * list (list Q) * list Q * nat * (list Q * list Q * Q * bool * nat * nat)"
-MM_TYPE = "nat * nat * list (list Q) * nat * (Q * list Q * list Q)"
+PREAMBLE = """
+Definition opts : @PivOptions Q := {| fea_tol := lp_FEA_TOL; tol_piv := lp_TOL_PIV; tol_ratio_diff := lp_TOL_RATIO_DIFF |}.
+Definition opts0 : @PivOptions Q := {| fea_tol := 0%Q; tol_piv := 0%Q; tol_ratio_diff := 0%Q |}.
+Definition optsF : @PivOptions float := {| fea_tol := lp_FEA_TOL_f; tol_piv := lp_TOL_PIV_f; tol_ratio_diff := lp_TOL_RATIO_DIFF_f |}.
+Definition tolc : Q := (1 # 1000000000).
+Definition LPQ : Type := (list Q * nat * nat * list (list Q) * list Q * list (list Q) * list Q * nat * (list Q * list Q * Q * bool * nat * nat))%type.
+(* strict: the exact-arithmetic run follows the same path as the float run *)
+Definition lp_ok (o : @PivOptions Q) (c : LPQ) : bool :=
+  let '(cv, m, k, Aub, bub, Aeq, beq, mi, (x, lam, fn, su, st, ni)) := c in
+  let '(x', lam', fn', su', st', ni') := linprog_simplex cv m k Aub bub Aeq beq mi o in
+  Bool.eqb su su' && Nat.eqb st st' && Nat.eqb ni ni' &&
+  Qs_close tolc x' x && Qs_close tolc lam' lam && Qclose tolc fn' fn.
+(* weak: path-independent outputs only (status; optimal value on success) *)
+Definition lp_ok_weak (o : @PivOptions Q) (c : LPQ) : bool :=
+  let '(cv, m, k, Aub, bub, Aeq, beq, mi, (x, lam, fn, su, st, ni)) := c in
+  let '(x', lam', fn', su', st', ni') := linprog_simplex cv m k Aub bub Aeq beq mi o in
+  Bool.eqb su su' && Nat.eqb st st' && (if su then Qclose tolc fn' fn else true).
+(* bit-exact: the binary64 instance of the same model text *)
+Definition LPF : Type := (list float * nat * nat * list (list float) * list float * list (list float) * list float * nat * (list float * list float * float * bool * nat * nat))%type.
+Definition lp_okF (c : LPF) : bool :=
+  let '(cv, m, k, Aub, bub, Aeq, beq, mi, (x, lam, fn, su, st, ni)) := c in
+  let '(x', lam', fn', su', st', ni') := linprog_simplex cv m k Aub bub Aeq beq mi optsF in
+  Bool.eqb su su' && Nat.eqb st st' && Nat.eqb ni ni' && Fs_eqb x' x && Fs_eqb lam' lam && PrimFloat.eqb fn' fn.
+Definition MMQ : Type := (nat * nat * list (list Q) * nat * (Q * list Q * list Q))%type.
+Definition mm_ok (o : @PivOptions Q) (c : MMQ) : bool :=
+  let '(m, n, A, mi, (v, x, y)) := c in let '(v', x', y') := minmax m n A mi o in
+  Qclose tolc v' v && Qs_close tolc x' x && Qs_close tolc y' y.
+Definition mm_ok_weak (o : @PivOptions Q) (c : MMQ) : bool :=
+  let '(m, n, A, mi, (v, x, y)) := c in let '(v', x', y') := minmax m n A mi o in Qclose (1 # 1000000) v' v.
+Definition MMF : Type := (nat * nat * list (list float) * nat * (float * list float * list float))%type.
+Definition mm_okF (c : MMF) : bool :=
+  let '(m, n, A, mi, (v, x, y)) := c in let '(v', x', y') := minmax m n A mi optsF in
+  PrimFloat.eqb v' v && Fs_eqb x' x && Fs_eqb y' y.
+"""
 FINISH = dict(level="proof", technique_note=(
     "Coq theorems (coq/C04/Props.v) about the executable model coq/C04/Model.v + Base/Pivot.v; the model is tied to "
     "/repo by evaluating it with vm_compute (exact Q arithmetic, tolerances re-read from the source) on the LPs the "
